@@ -157,7 +157,9 @@ func parseArEntry(line []byte) (*ArEntry, error) {
 	}
 
 	entry := ArEntry{
-		Name:     strings.TrimSuffix(strings.TrimSpace(string(line[0:16])), "/"),
+		/* the name is padded with blanks on the right; anything else in
+		 * the column - a blank in front, a tab - is part of the name */
+		Name:     strings.TrimSuffix(strings.TrimRight(string(line[0:16]), " "), "/"),
 		FileMode: strings.TrimSpace(string(line[40:48])),
 	}
 
